@@ -319,7 +319,7 @@ def cfgBootRewrite : Cfg :=
     guardSignal := true, guardNice := true, guardIonice := true, guardRlimit := true,
     guardAffinity := true, guardPpid := true, pid0Refused := true, negRejected := true,
     rlimitPid0Refused := true, sigStop := 19, sigCont := 18, sigTerm := 15, sigKill := 9,
-    ioNoValue := [0, 3] }
+    ioNoValue := [0, 3], affinityAll := 1024 }
 
 def EqIffSame_Full (c : Cfg) : Prop :=
   ∀ (b0 : Nat), b0 ≠ 0 → ∀ (h : List Ev), HistOK h → ∀ (i j : Nat) (a b : PObj),
